@@ -19,11 +19,11 @@ import (
 type c20Family struct {
 	name string
 	// build returns program, input and the stdout expected when n is within the limit
-	build    func(n int) (prog, input, want string)
-	lo, hi   int // the refusal point must lie in (lo, hi]
-	max      int // sweep 1..max
-	exact    int // when > 0: the largest n that must work
-	jsonErr  bool
+	build   func(n int) (prog, input, want string)
+	lo, hi  int // the refusal point must lie in (lo, hi]
+	max     int // sweep 1..max
+	exact   int // when > 0: the largest n that must work
+	jsonErr bool
 }
 
 func c20Rec(funcs string, call string, rule string, input string) func(n int) (string, string, string) {
@@ -127,7 +127,6 @@ func c20Exec(prog, input string) (stdout, stderr string, exit int) {
 	}
 	return so, se, ex
 }
-
 
 func c20Classify(stdout, stderr string, exit int, want string, jsonErr bool) c20Outcome {
 	o := c20Outcome{Stdout: clip(stdout), Stderr: clip(stderr), Exit: exit}
@@ -390,7 +389,7 @@ func init() {
 			return "every n within 48 of each refusal point and a grid of ~150 further values per family"
 		},
 		Assumptions: []string{"the binary's diagnostics contain 'runtime error' / 'could not parse' for the two error kinds", "ulimit -v 8 GB turns runaway allocation into a crash of the child instead of the sandbox"},
-		MaxWorkers: 14,
+		MaxWorkers:  14,
 		Run: func(c *fw.Ctx, u int) {
 			c20Ctx = c
 			defer os.RemoveAll(filepath.Join(fw.WorkDir(), fmt.Sprintf("c20-%d", os.Getpid())))
